@@ -76,7 +76,7 @@ func exec(op string) vlib.Res {
 		if err != nil && curPolicy.Mode != middleware.RecursionWorkEnforce {
 			or = "FAIL sig=ledger/check/non-enforce-mode-rejected"
 		}
-		if err == nil && curPolicy.Mode == middleware.RecursionWorkEnforce && used >= policyCaps(curPolicy)[kind] {
+		if err == nil && curPolicy.Mode == middleware.RecursionWorkEnforce && used >= curCfgCaps[kind] {
 			or = "FAIL sig=ledger/check/local-limit-not-enforced"
 		}
 		return vlib.Res{Impl: resStr(err), Oracle: or, Tags: "nt"}
@@ -140,6 +140,8 @@ func exec(op string) vlib.Res {
 		return pipeNew(f[2], csvU32(f[3]))
 	case "pipe query":
 		return pipeQuery(vlib.Atoi(f[2]), f[3] == "t", f[4] == "t", f[5], vlib.Atoi(f[6]), vlib.Atoi(f[7]))
+	case "pipe alias":
+		return pipeAlias(vlib.Atoi(f[2]), f[3] == "t", f[4], vlib.Atoi(f[5]), vlib.Atoi(f[6]))
 	case "sub nest":
 		if vlib.Atoi(f[5]) != middleware.VerifC12MaxQueryerRecursion() || uint32(vlib.AtoU64(f[4])) != defaultsFromCode()[1] {
 			return vlib.Res{Impl: "stale-constants", Oracle: "-"}
